@@ -317,7 +317,7 @@ def run_check(check: Check, tier: str, replay: Optional[str] = None) -> int:
             if branches.get(b, 0) < need:
                 print(f"INFRA: generator reached branch {b} only {branches.get(b, 0)} times (< {need})")
                 exit_code = 2
-        if len(cases) and tie_divergent > 0.05 * len(cases):
+        if len(cases) and tie_divergent > max(3, 0.05 * len(cases)):
             print(f"INFRA: {tie_divergent} tie-divergent cases of {len(cases)} (> 5%)")
             exit_code = 2
         if len(cases) and stuck > 0.02 * len(cases) + 2:
